@@ -42,12 +42,16 @@ HARNESSES = [
        bounds={'newSize': 'full 64 bit', 'alignment': '0 or 2^0..2^63', 'large': 'unalignedSize < 2^60, objectSize and cache-line shuffle offset symbolic, block address symbolic', 'slab': 'every size class (symbolic), every object position, interior 128-aligned pointers for fitting classes',
                'cut': 'internalPoolMalloc, allocateAligned, internalPoolFree; stubs: remap, getMaxBinnedSize, getBackRef; memcpy observer'}),
   dict(name='calloc_arith', unit='calloc', harness='h_calloc.c', defines={'NOSPUR': None}, scenarios=calloc_sc(0) + calloc_sc(1), timeout=600, cbmc=['--unwind', '4', '--external-sat-solver', 'kissat'],
-       desc='TODO', bounds={}),
+       desc='scalable_calloc element-count arithmetic (mult_not_overflow heuristic + exact arraySize/nobj test) through the real internalMalloc, allocator cut at internalPoolMalloc, memset observed; true product computed in 128 bits by the harness: block returned => product fits size_t, allocator asked exactly once for exactly nobj*size bytes (8 for an empty request), one memset(result, 0, nobj*size), errno untouched; product does not fit => NULL + ENOMEM before the allocator is reached; representable request refused only if the allocator failed; NULL => ENOMEM',
+       bounds={'concrete factor F': '0, 1, 2, 3, 2^16, 2^31, 2^32-1, 2^32, 2^32+1, 2^33, 2^63, 2^64-1 (one query each)', 'other factor': 'full 64 bit symbolic', 'orders': 'ORDER0 nobj=F/size symbolic, ORDER1 size=F/nobj symbolic',
+               'division': 'clang -O1 folds the arraySize/nobj != size idiom into llvm.umul.with.overflow: the solver sees a 128-bit multiply (both orders cost the same); a source change that breaks the idiom leaves a real udiv/urem (symbolic-divisor queries may then time out = inconclusive, never a pass)',
+               'back end': 'kissat (F=2^32-1: 25-40 s; all others < 3 s)', 'cut': 'internalPoolMalloc (records size; NULL or a fresh address), doInitialization, getFromLLOCache / StartupBlock::allocate (nested-call path, unreachable); memset observer'}),
 ]
 MANIFEST = dict(
-  level_text='Bounded symbolic execution of the real tbbmalloc front-end kernels: size-class functions for every request size; one inductive step of the slab (Block) operations from an arbitrary state satisfying the representation invariant, for every size class; allocateAligned strategy selection for symbolic size/alignment with the inner allocator cut to its contract; reallocAligned in-place / copy / free decision (large and slab objects) as one step; cross-thread free of slab objects (freePublicObject || owner privatisation / orphan adoption) on one block under all bounded interleavings of 2-3 threads. Sequential call histories are covered by the inductive-step argument, not by exploration.',
-  level_note='Cut points and stub contracts listed in evidence; whole-allocator histories through scalable_malloc and the backend/large-object cache are outside; cross-thread frees are covered only within the bounds of pubfree (one block, 2-3 threads, 2 rounds). Trusted: clang-14 IR, tools/ir2c.py (validated per run against the real C++ by the selftest differential), cbmc.',
+  level_text='Bounded symbolic execution of the real tbbmalloc front-end kernels: size-class functions for every request size; one inductive step of the slab (Block) operations from an arbitrary state satisfying the representation invariant, for every size class; allocateAligned strategy selection for symbolic size/alignment with the inner allocator cut to its contract; reallocAligned in-place / copy / free decision (large and slab objects) as one step; scalable_calloc element-count arithmetic (overflow heuristic + exact test) against a 128-bit product, one factor from a concrete list straddling 2^32, the other fully symbolic, both argument orders; cross-thread free of slab objects (freePublicObject || owner privatisation / orphan adoption) on one block under all bounded interleavings of 2-3 threads. Sequential call histories are covered by the inductive-step argument, not by exploration.',
+  level_note='Cut points and stub contracts listed in evidence; calloc products with two general (non-listed) factors are outside; whole-allocator histories through scalable_malloc and the backend/large-object cache are outside; cross-thread frees are covered only within the bounds of pubfree (one block, 2-3 threads, 2 rounds). Trusted: clang-14 IR, tools/ir2c.py (validated per run against the real C++ by the selftest differential), cbmc.',
 )
-OUTSIDE = ['whole-allocator call histories through scalable_malloc (initialisation, backend regions)', 'large-object cache and backend coalescing', 'cross-thread frees beyond the pubfree bounds (one block, <=2 concurrent frees, 2 rounds)', 'thread-exit orphan adoption end to end']
-STUBS = ['internalPoolMalloc/getFromLLOCache: any pointer satisfying the slab-grid / alignment guarantee, or NULL', 'getTLS: arbitrary pointer', 'pthread_self: constant']
+OUTSIDE = ['whole-allocator call histories through scalable_malloc (initialisation, backend regions)', 'large-object cache and backend coalescing', 'cross-thread frees beyond the pubfree bounds (one block, <=2 concurrent frees, 2 rounds)', 'thread-exit orphan adoption end to end',
+           'scalable_calloc with both factors general: calloc_arith fixes one factor to {0,1,2,3,2^16,2^31,2^32-1,2^32,2^32+1,2^33,2^63,2^64-1} (symbolic x symbolic 64-bit products are beyond SAT); zero fill is checked as the extent of the memset call, not byte by byte']
+STUBS = ['internalPoolMalloc/getFromLLOCache: any pointer satisfying the slab-grid / alignment guarantee, or NULL', 'getTLS: arbitrary pointer', 'pthread_self: constant', 'calloc_arith: internalPoolMalloc records the requested byte count and returns NULL or a fresh non-null address (never dereferenced); memset on that address is an observer (destination, fill byte, extent); errno location is a harness variable; kissat as SAT back end']
 ASSUMPTIONS = ['slab objects are placed at end-(k+1)*objectSize (established by block_step STEP 0/1/3 as an inductive invariant)', 'alignment passed to allocateAligned is a power of two (checked by all public callers)']
